@@ -12,6 +12,15 @@ pub struct Lzma2Decoder {
     lzma_state: DecoderState,
 }
 
+#[cfg(feature = "verif_hooks")]
+impl Lzma2Decoder {
+    /// Verification hook: feed the complete decoder state into `h`.
+    #[doc(hidden)]
+    pub fn verif_hash_state<H: std::hash::Hasher>(&self, h: &mut H) {
+        self.lzma_state.verif_hash_state(h);
+    }
+}
+
 impl Default for Lzma2Decoder {
     fn default() -> Self {
         Self::new()
